@@ -28,19 +28,19 @@ structure InvL (s : State) : Prop where
   stoPend : ∀ h, (s.hs h).stored = true → (s.hs h).pending ≠ 0
   spinSto : ∀ h r, s.lpc = .closeSpin h r → (s.hs h).stored = true
 
-theorem invL_step {s s' : State} {a : Act} (hI : InvL s) (hs : step? s a = some s') : InvL s' := by
-  cases a with
-  | begin t h =>
+theorem invL_step_begin {s s' : State} {t h : Nat} (hI : InvL s) (hs : step? s (.begin t h) = some s') : InvL s' := by
     simp only [step?] at hs
     repeat' split at hs
     all_goals first | (simp at hs; done) | skip
     all_goals (simp only [Option.some.injEq] at hs; subst hs; constructor <;> simp [setSnd, setH, upd] <;> grind [InvL])
-  | snd t =>
+
+theorem invL_step_snd {s s' : State} {t : Nat} (hI : InvL s) (hs : step? s (.snd t) = some s') : InvL s' := by
     simp only [step?, sndStep] at hs
     repeat' split at hs
     all_goals first | (simp at hs; done) | skip
     all_goals (simp only [Option.some.injEq] at hs; subst hs; constructor <;> simp [setSnd, setH, upd] <;> grind [InvL])
-  | loop =>
+
+theorem invL_step_loop {s s' : State} (hI : InvL s) (hs : step? s (.loop) = some s') : InvL s' := by
     simp only [step?, loopStep] at hs
     cases hl : s.lpc with
     | idle =>
@@ -67,16 +67,36 @@ theorem invL_step {s s' : State} {a : Act} (hI : InvL s) (hs : step? s a = some 
       · cases r <;>
         (simp only [Option.some.injEq] at hs; subst hs; constructor <;> simp [setH, upd, qMustBeEmpty, LRet.toPc] <;> grind [InvL, qMustBeEmpty])
       · simp at hs
-  | close h =>
+
+theorem invL_step_close {s s' : State} {h : Nat} (hI : InvL s) (hs : step? s (.close h) = some s') : InvL s' := by
     simp only [step?] at hs
     cases hl : s.lpc <;> simp only [hl, LPc.ret?] at hs <;> (try (simp at hs; done)) <;> split at hs <;> (try (simp at hs; done)) <;>
       (simp only [Option.some.injEq] at hs; subst hs; constructor <;> simp [setH, upd, qMustBeEmpty] <;> grind [InvL, qMustBeEmpty])
-  | eintr w => cases step?_eintr hs; exact hI
-  | closeCbs =>
+
+theorem invL_step_fork {s s' : State} (hI : InvL s) (hs : step? s (.fork) = some s') : InvL s' := by
+    simp only [step?] at hs
+    split at hs
+    · simp only [Option.some.injEq] at hs; subst hs; constructor <;> simp [qMustBeEmpty] <;> grind [InvL, qMustBeEmpty]
+    · simp at hs
+
+theorem invL_step_eintr {s s' : State} {w : Option Nat} (hI : InvL s) (hs : step? s (.eintr w) = some s') : InvL s' := by
+    cases step?_eintr hs; exact hI
+
+theorem invL_step_closeCbs {s s' : State} (hI : InvL s) (hs : step? s (.closeCbs) = some s') : InvL s' := by
     simp only [step?] at hs
     repeat' split at hs
     all_goals first | (simp at hs; done) | skip
-    all_goals (simp only [Option.some.injEq] at hs; subst hs; constructor <;> simp <;> grind [InvL])
+    all_goals (simp only [Option.some.injEq] at hs; subst hs; constructor <;> (try simp only []) <;> grind [InvL])
+
+theorem invL_step {s s' : State} {a : Act} (hI : InvL s) (hs : step? s a = some s') : InvL s' := by
+  cases a with
+  | begin t h => exact invL_step_begin hI hs
+  | snd t => exact invL_step_snd hI hs
+  | loop  => exact invL_step_loop hI hs
+  | close h => exact invL_step_close hI hs
+  | fork  => exact invL_step_fork hI hs
+  | eintr w => exact invL_step_eintr hI hs
+  | closeCbs  => exact invL_step_closeCbs hI hs
 
 @[simp] theorem toPc_ne_closeStore (r : LRet) (h : Nat) (r' : LRet) : r.toPc ≠ .closeStore h r' := by cases r <;> simp [LRet.toPc]
 @[simp] theorem toPc_ne_closeSpin (r : LRet) (h : Nat) (r' : LRet) : r.toPc ≠ .closeSpin h r' := by cases r <;> simp [LRet.toPc]
@@ -112,6 +132,11 @@ theorem invS_step {s s' : State} {a : Act} (hI : InvS s) (hs : step? s a = some 
     repeat' split at hs
     all_goals first | (simp at hs; done) | skip
     all_goals (simp only [Option.some.injEq] at hs; subst hs; constructor <;> simp [setH, upd] <;> grind [InvS, LPc.ret?])
+  | fork =>
+    simp only [step?] at hs
+    split at hs
+    · simp only [Option.some.injEq] at hs; subst hs; constructor <;> simp [List.getElem?_map] <;> grind [InvS]
+    · simp at hs
   | eintr w => cases step?_eintr hs; exact hI
   | closeCbs =>
     simp only [step?] at hs
